@@ -27,6 +27,8 @@ use std::num::NonZeroU32;
 
 #[path = "__verif_stubs.rs"]
 mod stubs;
+#[path = "__verif_tracing_stubs.rs"]
+mod tstubs;
 
 const MAXGOT: usize = 6;
 const MAXREL: usize = 5;
@@ -220,10 +222,10 @@ macro_rules! c23_harness {
         #[kani::unwind(42)]
         #[kani::stub(alloc::fmt::format, stubs::verif_format_stub)]
         #[kani::stub(crate::file_writer::verify_allocations_message, stubs::verif_empty_string)]
-        #[kani::stub(tracing::callsite::DefaultCallsite::interest, stubs::verif_tracing_interest_never)]
-        #[kani::stub(tracing::__macro_support::__is_enabled, stubs::verif_tracing_not_enabled)]
-        #[kani::stub(tracing::Event::dispatch, stubs::verif_tracing_event_dispatch_noop)]
-        #[kani::stub(tracing::Span::new, stubs::verif_tracing_span_none)]
+        #[kani::stub(tracing::callsite::DefaultCallsite::interest, tstubs::verif_tracing_interest_never)]
+        #[kani::stub(tracing::__macro_support::__is_enabled, tstubs::verif_tracing_not_enabled)]
+        #[kani::stub(tracing::Event::dispatch, tstubs::verif_tracing_event_dispatch_noop)]
+        #[kani::stub(tracing::Span::new, tstubs::verif_tracing_span_none)]
         fn $name() {
             harness($tls);
         }
@@ -236,10 +238,10 @@ macro_rules! c23_bits_harness {
         #[kani::unwind(42)]
         #[kani::stub(alloc::fmt::format, stubs::verif_format_stub)]
         #[kani::stub(crate::file_writer::verify_allocations_message, stubs::verif_empty_string)]
-        #[kani::stub(tracing::callsite::DefaultCallsite::interest, stubs::verif_tracing_interest_never)]
-        #[kani::stub(tracing::__macro_support::__is_enabled, stubs::verif_tracing_not_enabled)]
-        #[kani::stub(tracing::Event::dispatch, stubs::verif_tracing_event_dispatch_noop)]
-        #[kani::stub(tracing::Span::new, stubs::verif_tracing_span_none)]
+        #[kani::stub(tracing::callsite::DefaultCallsite::interest, tstubs::verif_tracing_interest_never)]
+        #[kani::stub(tracing::__macro_support::__is_enabled, tstubs::verif_tracing_not_enabled)]
+        #[kani::stub(tracing::Event::dispatch, tstubs::verif_tracing_event_dispatch_noop)]
+        #[kani::stub(tracing::Span::new, tstubs::verif_tracing_span_none)]
         fn $name() {
             harness_bits(true, Some($bits));
         }
